@@ -194,9 +194,13 @@ def run_replay_file(path, strict=True):
     env = dict(ENV)
     if strict:
         env["VERIF_STRICT"] = "1"
+    hang = bool(v.get("case", {}).get("hang"))
     try:
-        r = subprocess.run([binary(cfg, profile), "replay", path], stdout=subprocess.PIPE, stderr=subprocess.STDOUT, text=True, env=env, timeout=600)
+        r = subprocess.run([binary(cfg, profile), "replay", path], stdout=subprocess.PIPE, stderr=subprocess.STDOUT, text=True, env=env, timeout=120 if hang else 600)
     except subprocess.TimeoutExpired:
+        if hang:
+            # the recorded violation is "this single call does not return"
+            return "fail", f"REPLAY-FAIL property={v.get('property')} file={path}: the call did not return within 120 s\nVIOLATION property={v.get('property')} replay={path}\n"
         return "infra", "replay timed out"
     if r.returncode == 0:
         return "pass", r.stdout
